@@ -28,6 +28,9 @@ CLAIMED = {
  'C11': dict(cat='other', ref='DESIGN.md §4 C11',
    text='findOutputs/findOutputsMap/findOutputsList are proved to return stripF(obj) and selF(obj) (selection order: map first, children by ascending key; list children then the list), filterOutput* to return hideF(obj), and outputDocument to return exactly emitF(candidates) with the root fallback and per-candidate hiding, for all trees; specs written from the property statement.',
    note='Stated for trees in which no list holds a map carrying $output together with other keys (the code rejects those with "extra keys" - recorded as finding F15 in DESIGN.md; the error behaviour itself is proved); sortedMap is modelled by its assumed contract (ascending keys, each once); stripF/hideF/finF/selF are characterised by one defining axiom each.'),
+ 'C03': dict(cat='other', ref='DESIGN.md §4 C03',
+   text='Proved on the real functions: parentsFromFilename implements the filename rule exactly (fewer than two dot-separated parts: ErrInvalidFilename; two: no parent; more: the single parent is the existing file of the layer formed by all but the last two parts, and a missing layer is ErrMissingFile, never silently skipped); globFiles only returns matches with the pattern dot count (the wildcard does not cross dots); loadFileAndParents returns the requested file last, after everything its parents contributed, and its recursion is bounded (file-chain depth, C08); MergeFile (bkl -P) leaves no $parent directive in the documents it merges.',
+   note='NOT covered: the priority directive > symlink > filename in file.parents and the $parent value forms in parentsFromDirective (they depend on nil-versus-empty slices, which the model does not distinguish; such comparisons are unknown booleans, so nothing is claimed about them); the order of several parents and of several CLI inputs; renaming invariance. ASSUMED: findFile, isStdin, ext and path/filepath are uninterpreted (the file system is outside the contracts).'),
  'C04': dict(cat='other', ref='DESIGN.md §4 C04',
    text='What bkl owns of format independence is the canonical representation the decoders are mapped to: normalize/normalizeMap/normalizeList are proved to return a tree in which every number is a Go int or float64 (no int64, no json.Number) for every tree of decoder-producible shape, to be the identity on canonical trees, to turn json.Number into int/float64 and int64 into the int of the same value; yamlTranslateNode and yamlMerge are proved to produce canonical trees; $decode normalizes the decoded document before it re-enters the tree (site assertion). Under that invariant the type-sensitive == of match/merge/$repeat is logical equality whatever format each side came from.',
    note='ASSUMED, not proved: that the three third-party decoders are faithful to their formats (same logical tree from the same data; anchors, dotted keys); strconv parsing; TOML arrays of tables ([]map[string]any) and TOML dates are outside the clause (opaque element types in the model); loadFile applying normalize to every document is not under a functional contract; integers are mathematical (int64 that does not fit int cannot be represented).'),
